@@ -393,6 +393,10 @@ func run(c *core.Ctx) {
 			jobs = append(jobs, job{runCfg{t, labels, info, fmt.Sprintf("random:%d", k)}})
 		}
 	}
+	// sweep of router-info sizes on a line: forwarded announcements cross every pooled size class byte by byte
+	for pad := 0; pad < c.Q(200, 1500); pad++ {
+		jobs = append(jobs, job{runCfg{vmesh.Line(6), vmesh.LabelMode(pad % 3), pad, "fifo"}})
+	}
 	parallel(W, func(w int) {
 		r := core.RNG(fmt.Sprintf("c09/worker/%d", w))
 		pool := &idPool{r: core.RNG(fmt.Sprintf("c09/ids/%d", w))}
